@@ -374,6 +374,9 @@ func (fr *Frame) visit(instr ssa.Instruction) cont {
 		if p == nil {
 			g.goPanic("runtime error: invalid memory address or nil pointer dereference")
 		}
+		if g.run.raceOn && len(g.run.watch) > 0 {
+			g.run.recordAccess(g, p, true)
+		}
 		store(p, fr.get(in.Val))
 	case *ssa.If:
 		succ := 1
@@ -399,7 +402,17 @@ func (fr *Frame) visit(instr ssa.Instruction) cont {
 		fr.set(in, g.run.newChan(int(n.C), in.Type().Underlying().(*types.Chan).Elem()))
 	case *ssa.Alloc:
 		p := new(Value)
-		*p = zero(in.Type().Underlying().(*types.Pointer).Elem())
+		et := in.Type().Underlying().(*types.Pointer).Elem()
+		*p = zero(et)
+		if g.run.raceOn && isNamed(et, ModPath, "wsConn") {
+			st := under(et).(*types.Struct)
+			s := (*p).(Struct)
+			for i := 0; i < st.NumFields(); i++ {
+				if st.Field(i).Name() == "conn" {
+					g.run.watch[&s[i]] = &watchCell{name: "wsConn." + st.Field(i).Name()}
+				}
+			}
+		}
 		fr.set(in, p)
 	case *ssa.MakeSlice:
 		fr.set(in, fr.makeSlice(in))
@@ -470,6 +483,9 @@ func (fr *Frame) unop(in *ssa.UnOp) Value {
 		p := x.(*Value)
 		if p == nil {
 			g.goPanic("runtime error: invalid memory address or nil pointer dereference")
+		}
+		if g.run.raceOn && len(g.run.watch) > 0 {
+			g.run.recordAccess(g, p, false)
 		}
 		return load(p)
 	}
